@@ -41,9 +41,13 @@ def default_dtype(dt):
         torch.set_default_dtype(old)
 
 
-def tol32(l):
-    """tolerance for float32 arguments: the result can only be as good as the float32 angle (after `% 2π` in float32)"""
-    return 4e-6 * (l + 1)
+def tol_for(l, defdt, argdt):
+    """float64 everywhere: 1e-10.  float32 arguments but float64 arithmetic (default float64): the result can only be as
+    good as the float32 angle after `% 2π` in float32: 4e-6·(l+1).  float32 arithmetic (matrix_exp of a matrix of norm
+    ≈ 2π·l by scaling and squaring in float32): 2e-5·(l+1)."""
+    if argdt == torch.float64:
+        return TOL64
+    return 4e-6 * (l + 1) if defdt == torch.float64 else 2e-5 * (l + 1)
 
 
 # ------------------------------------------------------------------------------------------------
@@ -96,6 +100,16 @@ class Model:
         return ex(1, a) @ ex(0, b) @ ex(1, c)
 
 
+def robust_angles(o3, R):
+    """YXY Euler angles of rotation matrices, well conditioned at β∈{0,π} (atan2 instead of the acos of matrix_to_angles)"""
+    x = R[..., :, 1]
+    beta = torch.atan2(torch.hypot(x[..., 0], x[..., 2]), x[..., 1])
+    alpha = torch.atan2(x[..., 0], x[..., 2])
+    Rp = o3.angles_to_matrix(alpha, beta, torch.zeros_like(alpha)).transpose(-1, -2) @ R
+    gamma = torch.atan2(Rp[..., 0, 2], Rp[..., 0, 0])
+    return alpha, beta, gamma
+
+
 def parse_blocks(line):
     if line.startswith("error:"):
         return line
@@ -125,7 +139,7 @@ def angle_sets(ctx, thorough):
     if not thorough:
         keep = [g for g in grid if g[1] in (0.0, math.pi, -math.pi) and rng.random() < 0.4]
         grid = rng.sample(grid, 180) + keep + [(0.0, 0.0, 0.0), (TWO_PI, TWO_PI, TWO_PI), (-TWO_PI, math.pi, TWO_PI)]
-    n = 400 if thorough else 120
+    n = 2000 if thorough else 120
     rnd = [(rng.uniform(-math.pi, math.pi), rng.uniform(-math.pi, math.pi), rng.uniform(-math.pi, math.pi)) for _ in range(n)]
     big = [(rng.uniform(-40, 40), rng.uniform(-40, 40), rng.uniform(-40, 40)) for _ in range(n // 2)]
     # beta in {0, pi} with arbitrary alpha, gamma; and tiny perturbations of the strata
@@ -143,6 +157,7 @@ def run(ctx: Ctx):
     from e3nn import o3
     from e3nn.math import direct_sum
     thorough = ctx.tier == "thorough"
+    torch.set_num_threads(1)   # tiny matrices: intra-op threading only costs (30× slower on a loaded 16-core box)
 
     # ---- proof obligations -----------------------------------------------------------------------
     targets = ["E3nnVerif.Props.C03"]
@@ -247,19 +262,21 @@ def run(ctx: Ctx):
                     ctx.violation("Irreps.D_from_angles/block-mismatch", {"irreps": str(irs), "k": kint, "max_abs_dev": dev,
                                                                         "expected_layout(l,p,offset)": blocks}, True)
         # -- the no-block case is a defect of the property's direct-sum clause (a 0×0 matrix is expected)
-        for s in ("", "0x1e"):
-            irs = o3.Irreps(s)
+        empt = []
+        for s_ in ("", "0x1e", "0x0e+0x2o"):
+            irs = o3.Irreps(s_)
             try:
                 D = irs.D_from_angles(a0, b0, c0)
-                shape = list(D.shape)
-                if shape != [0, 0]:
-                    ctx.violation("Irreps.D_from_angles/empty-irreps", {"irreps": s, "got_shape": shape, "expected_shape": [0, 0]}, True)
+                if list(D.shape) != [0, 0]:
+                    empt.append({"irreps": s_, "got_shape": list(D.shape)})
             except Exception as e:  # noqa: BLE001
-                ctx.violation("Irreps.D_from_angles/empty-irreps", {
-                    "call": f"o3.Irreps({s!r}).D_from_angles(tensor(0.7), tensor(-1.9), tensor(2.3))",
-                    "irreps": s, "dim": irs.dim, "got": exc_name(e) + ": " + str(e),
-                    "expected": "the 0x0 matrix (block-diagonal of no parts); direct_sum(*[]) indexes matrices[0]",
-                    "model": "Props.C03.irrepsD_eq: error .index  iff  every multiplicity is 0"}, True)
+                empt.append({"irreps": s_, "dim": irs.dim, "got": exc_name(e) + ": " + str(e)})
+        if empt:
+            ctx.violation("Irreps.D_from_angles/empty-irreps", {
+                "call": "o3.Irreps('0x1e').D_from_angles(tensor(0.7), tensor(-1.9), tensor(2.3))", "irreps": "0x1e",
+                "all": empt, "expected": "the 0x0 matrix (block-diagonal of no parts); direct_sum(*[]) indexes matrices[0]",
+                "also": "D_from_matrix / D_from_quaternion / D_from_axis_angle of the same Irreps",
+                "model": "Props.C03.irrepsD_eq: error .index  iff  every multiplicity is 0"}, True)
 
         # -- direct_sum on integer matrices
         for mats in ds_cases:
@@ -338,9 +355,9 @@ def run(ctx: Ctx):
                 M2 = model.D(l, a, b, c, reduce=False)
                 note(f"model_periodicity[{name}]", (M - M2).abs().max())
             # independent evaluations of the model on a subsample: scipy expm and eigen-decomposition
-            sub = sets["random"][: (12 if thorough else 4)]
-            for row in sub.tolist():
-                Dr = o3.wigner_D(l, *[torch.tensor(x) for x in row]).numpy()
+            sub = sets["random"][: (40 if thorough else 4)]
+            Dsub = o3.wigner_D(l, sub[:, 0], sub[:, 1], sub[:, 2]).numpy()
+            for Dr, row in zip(Dsub, sub.tolist()):
                 d1 = np.abs(Dr - model.D_scipy(l, *row)).max()
                 d2 = np.abs(Dr - model.D_eig(l, *[x - math.floor(x / TWO_PI) * TWO_PI for x in row])).max()
                 note("wigner_D_vs_model_scipy_expm", d1)
@@ -350,6 +367,33 @@ def run(ctx: Ctx):
                     ctx.violation("wigner_D/vs-exact-generator-model", {"l": l, "angles": row, "dev_scipy_expm": float(d1),
                                                                        "dev_eigh": float(d2)}, True)
 
+        # unbatched calls with a small angle: torch.matrix_exp takes a different code path for a single matrix
+        # (batch of one) and, for ‖θX‖₁ just below 0.0499, is only accurate to ~2e-10 in float64 (2e-5 in float32);
+        # a batch of ≥ 2 matrices with the same entries is accurate to 1e-16.  wigner_D inherits it.
+        small = {}
+        for l in [x for x in ls if x > 0]:
+            for frac in (0.999, 0.9, 0.5):
+                th = 0.0499 * frac / l
+                t, z = torch.tensor(th), torch.tensor(0.0)
+                for which, args in (("alpha", (t, z, z)), ("beta", (z, t, z))):
+                    D1 = o3.wigner_D(l, *args)                                         # 0-dim angles
+                    D2 = o3.wigner_D(l, *[torch.stack([x, x]) for x in args])[0]       # same angles, batch of 2
+                    ref = torch.tensor(model.D_eig(l, *[float(x) for x in args]))
+                    d1, d2 = float((D1 - ref).abs().max()), float((D2 - ref).abs().max())
+                    note("unbatched small angle: wigner_D vs model", d1)
+                    note("same angle in a batch of 2: wigner_D vs model", d2)
+                    ctx.case(("unbatched-small", l, which, frac))
+                    if d1 > small.get("dev", 0.0):
+                        small = {"l": l, "angle": which, "theta": th, "dev": d1, "dev_same_angle_in_batch_of_2": d2}
+        if small.get("dev", 0.0) > TOL64:
+            ctx.violation("wigner_D/unbatched-small-angle-torch-matrix_exp", {
+                "call": f"o3.wigner_D({small['l']}, " + ", ".join(f"torch.tensor({small['theta'] if small['angle'] == w else 0.0})" for w in ("alpha", "beta", "gamma")) + ")  (float64 default)",
+                **small, "required": TOL64, "torch": torch.__version__,
+                "cause": "torch.matrix_exp on a single matrix with 1-norm just below 0.0499 (its degree-8 Taylor threshold) returns "
+                         "a result accurate to ~2e-10 only; the batched path is accurate to 1e-16.  e3nn calls torch.matrix_exp(alpha * X[1]) "
+                         "with whatever batch shape the caller passes; reference: eigen-decomposition of the exact generators",
+                "upstream": True}, True)
+
     # ---- (3) property oracles on the real code, all four dtype combinations ----------------------
     def oracles(defdt, argdt):
         """returns list of (clause, l, angles, deviation, tolerance)"""
@@ -357,7 +401,7 @@ def run(ctx: Ctx):
         exact64 = defdt == torch.float64 and argdt == torch.float64
         with default_dtype(defdt):
             for l in ls:
-                tol = TOL64 if argdt == torch.float64 else tol32(l)
+                tol = tol_for(l, defdt, argdt)
                 for name, ang64 in sets.items():
                     if name == "large" and argdt == torch.float32:
                         continue  # float32 angles of size 40 lose 1e-6 absolute already in the argument
@@ -373,7 +417,7 @@ def run(ctx: Ctx):
                         i = int(dev.argmax())
                         note(f"{clause}[def={str(defdt)[6:]},arg={str(argdt)[6:]}]", dev[i])
                         if dev[i] > tol:
-                            bad.append((clause, l, ang[i].tolist(), float(dev[i]), tol, name))
+                            bad.append((clause, l, ang[min(i, ang.shape[0] - 1)].tolist(), float(dev[i]), tol, name))
                     rec("accuracy-vs-model", (D64 - ref).abs().amax(dim=(1, 2)))
                     rec("orthogonal", (D64 @ D64.transpose(-1, -2) - eye).abs().amax(dim=(1, 2)))
                     Dinv = o3.wigner_D(l, -c, -b, -a).to(torch.float64)
@@ -381,13 +425,27 @@ def run(ctx: Ctx):
                     # periodicity
                     Dp = o3.wigner_D(l, a + TWO_PI, b - TWO_PI, c + 2 * TWO_PI).to(torch.float64)
                     rec("periodic", (Dp - D64).abs().amax(dim=(1, 2)) if argdt == torch.float64 else (Dp - D64).abs().amax(dim=(1, 2)) / 4)
-                    # homomorphism with compose_angles
+                    # homomorphism: g1·g2 computed (i) by a well-conditioned Euler decomposition of R1·R2 in float64,
+                    # (ii) by o3.compose_angles (its matrix_to_angles uses acos: half the digits are lost when the
+                    # product lands near β∈{0,π} — conditioning of C12's function, measured separately)
                     perm = torch.tensor(ctx.rng.sample(range(ang.shape[0]), ang.shape[0]))
                     a2, b2, c2 = a[perm], b[perm], c[perm]
-                    a3, b3, c3 = o3.compose_angles(a, b, c, a2, b2, c2)
                     D2 = o3.wigner_D(l, a2, b2, c2).to(torch.float64)
-                    D3 = o3.wigner_D(l, a3, b3, c3).to(torch.float64)
+                    with default_dtype(torch.float64):
+                        R12 = o3.angles_to_matrix(a.double(), b.double(), c.double()) @ o3.angles_to_matrix(a2.double(), b2.double(), c2.double())
+                        ra, rb, rc = robust_angles(o3, R12)
+                    D3 = o3.wigner_D(l, ra.to(argdt), rb.to(argdt), rc.to(argdt)).to(torch.float64)
                     rec("homomorphism", (D64 @ D2 - D3).abs().amax(dim=(1, 2)))
+                    a3, b3, c3 = o3.compose_angles(a, b, c, a2, b2, c2)
+                    D3c = o3.wigner_D(l, a3, b3, c3).to(torch.float64)
+                    devc = (D64 @ D2 - D3c).abs().amax(dim=(1, 2))
+                    polar = torch.sin(rb).abs() < 1e-3
+                    if (~polar).any():
+                        rec("homomorphism via compose_angles", devc[~polar])
+                    if polar.any():
+                        note(f"homomorphism via compose_angles, product within 1e-3 of β∈{{0,π}} (acos conditioning, C12)[def={str(defdt)[6:]},arg={str(argdt)[6:]}]",
+                             devc[polar].max())
+                        ctx.count("compose_angles:product-near-polar-stratum", int(polar.sum()))
                     if l == 1:
                         R = o3.angles_to_matrix(a, b, c).to(torch.float64)
                         rec("l=1 equals angles_to_matrix", (D64 - R).abs().amax(dim=(1, 2)))
@@ -483,6 +541,38 @@ def run(ctx: Ctx):
                 n = 2 * l + 1
                 if not (torch.allclose(Dm, p * torch.eye(n), atol=1e-14) and torch.allclose(Di, torch.eye(n), atol=1e-14)):
                     ctx.violation("Irrep.D_from_matrix/inversion", {"irrep": str(ir), "got": Dm.tolist()}, True)
+        # near (not on) the polar strata β∈{0,π}: matrix_to_angles takes β = acos(R[1,1]); half of the digits are lost
+        polar = {}
+        for argdt, betas in ((torch.float64, (1e-9, 1e-6, 1e-4, math.pi - 1e-7)), (torch.float32, (1e-4, 1e-3, 1e-2, math.pi - 1e-3))):
+            for l in ls:
+                ir = o3.Irrep(l, 1)
+                for be in betas:
+                    aa = torch.tensor([0.3, -2.0, 1.1, 2.9], dtype=argdt)
+                    cc = torch.tensor([0.5, 0.9, -2.4, -0.1], dtype=argdt)
+                    bb = torch.full_like(aa, be)
+                    R = o3.angles_to_matrix(aa, bb, cc)                       # argdt matrices
+                    ref = model.D(l, *robust_angles(o3, R.double()))          # D of the rotation matrix as given
+                    Dm = ir.D_from_matrix(R).double()
+                    Dq = ir.D_from_quaternion(o3.angles_to_quaternion(aa, bb, cc)).double()
+                    dev = float((Dm - ref).abs().max())
+                    devq = float((Dq - model.D(l, aa.double(), bb.double(), cc.double())).abs().max())
+                    ctx.evaluations += 8
+                    k = (str(argdt)[6:], l)
+                    if k not in polar or dev > polar[k]["dev"]:
+                        polar[k] = {"beta": be, "dev": dev, "dev_quaternion_form": devq, "alpha": float(aa[0]), "gamma": float(cc[0])}
+        worst64 = max((v["dev"] / TOL64, k) for k, v in polar.items() if k[0] == "float64")
+        worst32 = max((v["dev"] / tol_for(k[1], torch.float64, torch.float32), k) for k, v in polar.items() if k[0] == "float32")
+        ctx.notes["D_from_matrix_near_polar_strata"] = {f"{k[0]} l={k[1]}": v for k, v in polar.items()}
+        if worst64[0] > 1 or worst32[0] > 1:
+            k64, k32 = worst64[1], worst32[1]
+            ctx.violation("Irrep.D_from_matrix/near-polar-stratum-acos", {
+                "call": f"R = o3.angles_to_matrix(0.3, {polar[k64]['beta']}, 0.5); o3.Irrep({k64[1]},1).D_from_matrix(R)  (float64)",
+                "float64": {"l": k64[1], **polar[k64], "required": TOL64},
+                "float32": {"l": k32[1], **polar[k32], "required": tol_for(k32[1], torch.float64, torch.float32)},
+                "reference": "model D of a well-conditioned (atan2) YXY decomposition of the same matrix R, float64",
+                "cause": "matrix_to_angles → xyz_to_angles takes beta = acos(R[1,1]): for beta→0,π an error ε in R[1,1] becomes ε/sin(beta) "
+                         "(√ε at the stratum); D_from_quaternion / D_from_axis_angle / compose_angles go through the same function",
+                "exactly_on_the_stratum": "beta ∈ {0, ±π}: agreement to 1e-13 (grid stream)"}, True)
         # error branch of D_from_matrix: singular and non-orthogonal-determinant matrices are rejected
         for Rbad, want in ((torch.zeros(3, 3), "error:AssertionError"), (torch.diag(torch.tensor([1.0, 1.0, 0.0])), "error:AssertionError"),
                            (2 * torch.eye(3), "error:AssertionError"), (torch.diag(torch.tensor([1.0, 1.0, 1.00001])), "ok"),
@@ -582,5 +672,15 @@ def replay(ctx, path):
         except Exception as e:  # noqa: BLE001
             print("raises", repr(e))
             return 1
+    if key == "Irrep.D_from_matrix/near-polar-stratum-acos":
+        torch.set_default_dtype(torch.float64)
+        w = rep["float64"]
+        l, be = w["l"], w["beta"]
+        a, b, c = torch.tensor(w["alpha"]), torch.tensor(be), torch.tensor(w["gamma"])
+        ir = o3.Irrep(l, 1)
+        R = o3.angles_to_matrix(a, b, c)
+        e = float((ir.D_from_matrix(R) - ir.D_from_angles(*robust_angles(o3, R))).abs().max())
+        print(f"Irrep({l},1).D_from_matrix(angles_to_matrix({float(a)}, {be}, {float(c)})) vs D of the atan2 decomposition of the same matrix: |Δ| = {e:.3e}")
+        return 1 if e > TOL64 else 0
     print("nothing to replay for this key; run ./check C03")
     return 2
